@@ -252,6 +252,16 @@ CORPUS["C07"] = [
 ]
 
 CORPUS["C08"] = [
+    B("larger angle chosen by the negated comparison", (EAS, "thetaChEff = np.where(thetaChEnh >= thetaCh100PeV, thetaChEnh, thetaCh100PeV)",
+                                                        "thetaChEff = np.where(~(thetaChEnh >= thetaCh100PeV), thetaCh100PeV, thetaChEnh)")),
+    M("smaller angle chosen by the negated comparison", (EAS, "thetaChEff = np.where(thetaChEnh >= thetaCh100PeV, thetaChEnh, thetaCh100PeV)",
+                                                         "thetaChEff = np.where(~(thetaChEnh >= thetaCh100PeV), thetaChEnh, thetaCh100PeV)")),
+    B("log-enhancement by nested where (log of 1 where dim)",
+      (EAS, "        logenhanceFactor = np.empty_like(enhanceFactor)\n        efMask = enhanceFactor > 2.0\n        logenhanceFactor[efMask] = np.log(enhanceFactor[efMask])\n        logenhanceFactor[~efMask] = 0.5\n",
+       "        efMask = enhanceFactor > 2.0\n        logenhanceFactor = np.where(efMask, np.log(np.where(efMask, enhanceFactor, 1.0)), 0.5)\n")),
+    M("log-enhancement by nested where, inner selection inverted",
+      (EAS, "        logenhanceFactor = np.empty_like(enhanceFactor)\n        efMask = enhanceFactor > 2.0\n        logenhanceFactor[efMask] = np.log(enhanceFactor[efMask])\n        logenhanceFactor[~efMask] = 0.5\n",
+       "        efMask = enhanceFactor > 2.0\n        logenhanceFactor = np.where(efMask, np.log(np.where(efMask, 1.0, enhanceFactor)), 0.5)\n")),
     B("enhancement by np.select", (EAS, "        logenhanceFactor = np.empty_like(enhanceFactor)\n        efMask = enhanceFactor > 2.0\n        logenhanceFactor[efMask] = np.log(enhanceFactor[efMask])\n        logenhanceFactor[~efMask] = 0.5\n", "        efMask = enhanceFactor > 2.0\n        with np.errstate(all=\"ignore\"):\n            logenhanceFactor = np.select([efMask], [np.log(enhanceFactor)], 0.5)\n")),
     M("quantum efficiency dropped", (EAS, "            * self.config.detector.optical.quantum_efficiency\n", "\n")),
     M("extra showerEnergy factor", (EAS, "            # * showerEnergy  # Scaling", "            * showerEnergy  # Scaling")),
@@ -386,6 +396,15 @@ CORPUS["C15"] = [
 ]
 
 CORPUS["C16"] = [
+    M("early exit hands back a fresh table of the default configuration", (COMP, "        return sim\n\n    init_lat", "        return results_table.init()\n\n    init_lat")),
+    M("results table created from a default configuration", (COMP, "    sim = results_table.init(config)\n", "    sim = results_table.init(NssConfig())\n")),
+    M("run command: compute() gets a second, freshly loaded configuration (overrides lost)",
+      (RUN, "    simulation = compute(\n        config,", "    simulation = compute(\n        config_from_toml(config_file),")),
+    M("run command: the table written is a new one, not the simulation's",
+      (RUN, "        simulation.write(output, format=\"fits\", overwrite=True)", "        results_table.init().write(output, format=\"fits\", overwrite=True)"),
+      (RUN, "from ..compute import compute\n", "from ..compute import compute\nfrom .. import results_table\n")),
+    B("configuration bound to a second name before the table is created", (COMP, "    sim = results_table.init(config)\n", "    run_config = config\n    sim = results_table.init(run_config)\n")),
+    B("run command: configuration passed by keyword", (RUN, "    simulation = compute(\n        config,", "    simulation = compute(\n        config=config,")),
     M("header filter turns None into text", (RT, 'import datetime\n', 'import datetime\nimport math\n'), (RT, "def init(", 'def _header_value(value):\n    if isinstance(value, (bool, int, str)):\n        return value\n    if isinstance(value, float) and math.isfinite(value):\n        return value\n    return str(value)\n\n\ndef init('), (RT, '                **flatten_dict(config.model_dump(), "HIERARCH Config", sep=" "),', '                **{k: _header_value(v) for k, v in flatten_dict(config.model_dump(), "HIERARCH Config", sep=" ").items()},')),
     B("header filter keeps every value a card can hold, text for the rest", (RT, 'import datetime\n', 'import datetime\nimport math\n'), (RT, "def init(", 'def _header_value(value):\n    if value is None or isinstance(value, (bool, int, str)):\n        return value\n    if isinstance(value, float) and math.isfinite(value):\n        return value\n    return str(value)\n\n\ndef init('), (RT, '                **flatten_dict(config.model_dump(), "HIERARCH Config", sep=" "),', '                **{k: _header_value(v) for k, v in flatten_dict(config.model_dump(), "HIERARCH Config", sep=" ").items()},')),
     M("longitude read from the latitude key", (CFG, '"longitude": d("initial_position longitude"),', '"longitude": d("initial_position latitude"),')),
